@@ -13,7 +13,7 @@ from fractions import Fraction
 import numpy as np
 
 from ..run import Task
-from . import common
+from . import common, c05_grid
 from ..llsym import bridge
 from ..llsym.interp import Interp, Obj, Ptr, REAL
 from ..llsym.ccall import ccall, STATS
@@ -342,6 +342,31 @@ def c_translator_validation(cfg):
     return dict(records=recs, paths=0, solver_time=0.0)
 
 
+def h_orb2grid(env, **cfg):
+    _real_interp()
+    return c05_grid.h_orb2grid(env, _real_world(), INTERP_C, STATS, _dot, **cfg)
+
+
+def h_direct(env, **cfg):
+    _real_interp()
+    return c05_grid.h_direct(env, _real_world(), STATS, _dot, **cfg)
+
+
+def _grid_tasks(tier):
+    out = [Task("grid_link/LCAOInterpolator/n0=1,n1=1", h_orb2grid, {}),
+           Task("grid_link/Direct/n0=1,n1=1/pruned", h_direct, {}),
+           Task("grid_link/Direct/n0=1,n1=1/padded_unpruned", h_direct, dict(padding=1, prune=False)),
+           Task("grid_link/Direct/n0=2,n1=0", h_direct, dict(n0=2, n1=0))]
+    if tier == "thorough":
+        out += [Task("grid_link/LCAOInterpolator/n0=2,n1=2", h_orb2grid, dict(n0=2, n1=2)),
+                Task("grid_link/Direct/n0=2,n1=2/padded", h_direct, dict(n0=2, n1=2, padding=2)),
+                Task("grid_link/Direct/n0=1,n1=2/unpruned", h_direct, dict(n0=1, n1=2, prune=False)),
+                Task("grid_link/Direct/lmax2/n0=1,n1=1", h_direct, dict(lmax=2), timeout_ms=120000)]
+    # n0 = 0 with n1 > 0 is not an operator pair at all: conv2spline needs the l spline table w0_rsp, which the constructor only
+    # builds when n0 > 0, and raises AssertionError (a refusal, not a wrong adjoint) - outside C05
+    return out
+
+
 def tasks(tier):
     out = [Task("angc_ylm/offset1", h_angc_ylm, {}), Task("angc_ylm/offset0", h_angc_ylm, dict(stride=2, offset=0)),
            Task("rad_orb/offset1", h_rad_orb, {}), Task("rad_orb/offset0", h_rad_orb, dict(stride=2, offset=0)),
@@ -354,14 +379,23 @@ def tasks(tier):
            Task("translator_validation", c_translator_validation, dict(seed=0), engine="custom")]
     if tier == "thorough":
         out.append(Task("angc_ylm/3rad", h_angc_ylm, dict(nrad=2, nw=(3, 4), nlm=9, nalpha=3, stride=5, offset=2)))
-    return out
+    return out + _grid_tasks(tier)
 
 
 def prepare(tier):
     m = sym_mods()
     m.plans
-    _real_world()
+    W = _real_world()
     _real_interp()
+    # grid link: symbolic copies of the wrapper modules, the interpreted data-path routines behind their `libcider`, and the real
+    # interpolators (built here, outside the symbolic import context, by the freshly compiled library)
+    m.lcao_interpolation, m.lcao_convolutions, m.grids_indexer
+    c05_grid.install(common.ctx(), {"conv_interpolation.c": INTERP_C, "convolutions.c": CONV_C, "cider_grids.c": GRIDS_C}, STATS, W["lc"].libcider)
+    for t in _grid_tasks(tier):
+        if t.fn is h_direct:
+            c05_grid.make_direct(W, **t.cfg)
+        else:
+            c05_grid.make_interp(W, **t.cfg)
 
 
 def replay(task, rec):
@@ -377,8 +411,8 @@ def replay(task, rec):
 def extra_evidence(results):
     from ..llsym import ir
     return dict(ir_sources_sha256={k.replace("/repo/", ""): v for k, v in ir.EMITTED.items()}, translator_validation=[dict(function=n, max_deviation=d) for n, d in VALIDATION],
-                pairs_not_covered=["add_lp1_term_fwd/bwd (+onsite variants)",
-                                   "compute_mol_convs_single_new/compute_pot_convs_single_new", "SDMXcontract_ao_to_bas*", "contract_shl_to_alpha_l1(_bwd)", "SDMX plan get_features/get_vxc"])
+                pairs_not_covered=["add_lp1_term_onsite_fwd/bwd (not called by any wrapper)", "SDMXcontract_ao_to_bas*", "contract_shl_to_alpha_l1(_bwd)", "SDMX plan get_features/get_vxc",
+                                   "LCAOInterpolator.project_orb2grid_grad (nuclear-gradient path)"])
 
 
 META = dict(
@@ -387,10 +421,20 @@ META = dict(
     functions=["ciderpress/lib/mod_cider/cider_grids.c: reduce_angc_to_ylm, reduce_ylm_to_angc (dgemm_ by reference-BLAS semantics)",
                "ciderpress/lib/mod_cider/convolutions.c: contract_rad_to_orb, contract_orb_to_rad, multiply_atc_integrals(fwd=1/0), multiply_atc_integrals_vk(fwd=1/0)",
                "ciderpress/lib/mod_cider/conv_interpolation.c: project_conv_to_spline, project_spline_to_conv, fill_l1_coeff_fwd, fill_l1_coeff_bwd (real Gaunt table from sph_harm_coeff.get_deriv_ylm_coeff)",
-               "ciderpress/dft/plans.py: NLDFGaussianPlan._get_transformed_interpolation_terms (fwd/bwd, in place and copy)"],
-    bounds=dict(atoms=2, lmax=1, nalpha=2, radial_shells="2-5", angular_points="2-4 per shell", strides="stride > nalpha with offset 0/1", coef_order="gq, qg", threads="serial semantics (C10 covers threading)"),
+               "ciderpress/dft/plans.py: NLDFGaussianPlan._get_transformed_interpolation_terms (fwd/bwd, in place and copy)",
+               "ciderpress/dft/lcao_interpolation.py: LCAOInterpolator.project_orb2grid / project_grid2orb and LCAOInterpolatorDirect.project_orb2grid / project_grid2orb (onsite_direct=True) "
+               "with conv2spline, spline2conv, interpolate_fwd/bwd, _interpolate_nopar_atom, _call_l1_fill, _run_onsite_orb2grid, _run_onsite_lp1 as written; "
+               "ciderpress/dft/lcao_convolutions.py: ATCBasis.convert_rad2orb_; ciderpress/dft/grids_indexer.py: AtomicGridsIndexer.reduce_angc_ylm_, empty_rlmq",
+               "ciderpress/lib/mod_cider/conv_interpolation.c (behind those wrappers): compute_mol_convs_single_new, compute_pot_convs_single_new, add_lp1_term_fwd/bwd, add_lp1_onsite_new_fwd/bwd, "
+               "project_conv_to_spline, project_spline_to_conv, fill_l1_coeff_fwd/bwd"],
+    bounds=dict(grid_link="2 atoms, lmax 1, (n0,n1) in {(1,1),(2,0)} quick + {(2,2),(1,2)} thorough, 6 spline shells, 5 free points / a hand-made atomic grid of 4 radial shells and 8 points "
+                      "(pruned to 7, permuted, padding 0-2); coordinates, spline tables and the grid ordering are concrete",
+            atoms=2, lmax=1, nalpha=2, radial_shells="2-5", angular_points="2-4 per shell", strides="stride > nalpha with offset 0/1", coef_order="gq, qg", threads="serial semantics (C10 covers threading)"),
     stubs=["dgemm_: reference BLAS (column major) over exact reals", "scipy cho_factor/cho_solve: exact symbolic solve (SPD assumed, 2x2)",
-           "atc_basis_set / convolution_collection: built by the freshly compiled library through ATCBasis / ConvolutionCollection; only read"],
-    assumptions=["pairs listed in coverage.pairs_not_covered (l+1 terms, orbital<->grid interpolation, SDMX contractions) are NOT covered in this round",
+           "atc_basis_set / convolution_collection: built by the freshly compiled library through ATCBasis / ConvolutionCollection; only read",
+           "grid link: compute_spline_maps, compute_num_spline_contribs_new, compute_spline_ind_order_new, compute_spline_bas_separate and the get_atco_* queries run in the compiled library "
+           "(concrete set-up at fixed coordinates); their doubles enter the identity as exact rationals"],
+    assumptions=["pairs listed in coverage.pairs_not_covered (SDMX contractions, the nuclear-gradient projection) are NOT covered",
+                 "the interpolator's basis has l >= 1 shells on every atom (what aug_etb_for_cider produces); the scratch column `ig` of the l=1 terms is not part of either operator",
                  "float64 as exact reals: the identity is exact, stronger than 'to rounding error'"],
 )
